@@ -1525,7 +1525,12 @@ LATTICE_RULE = ("font support lattice (tools/props/_lattice.py): every character
                 "decomposition mapped (characters on which the shaper's own decompose callback differs from "
                 "unicode::decompose, probed on the crate, are left out under that shaper); oracles: per cluster the characters "
                 "recovered from the glyphs are canonically equivalent to the input (no .notdef, no fallback glyph); c alone under "
-                "the default shaper with no intermediate mapped: exactly the glyphs of NFD(c)")
+                "the default shaper with no intermediate mapped: exactly the glyphs of NFD(c); equivalent-twin: wherever the "
+                "normalizer must decompose c all the way (the font maps NFD(c) and c is in a multi-character cluster under a "
+                "mode other than NONE, or neither c nor an intermediate is mapped) the text with NFD(c) in place of c (same "
+                "cluster values) must give the identical result — glyphs, clusters, positions — under every shaper "
+                "(characters whose decomposition is not in the order of the crate's MODIFIED combining classes are left "
+                "out: a text of simple clusters skips the reorder round, e.g. U+FB2C)")
 
 
 def run(ctx):
@@ -1561,8 +1566,9 @@ def run(ctx):
     env = L.Env(shim)
     L.promote_norm_run(ctx, shim, env, dis, ctx.budget(40, 300), [L.judge_conservation], "norm-run")
     L.search(ctx, shim, env, ctx.rng("lattice"), ("decomposable",),
-             lambda c, S, text, tag: not all(x in S for x in text) and all(L.renderable(x, S) for x in text),
-             [L.judge_conservation], LATTICE_RULE)
+             lambda c, S, text, tag: (not all(x in S for x in text) and all(L.renderable(x, S) for x in text))
+             or L.decomposed_twin(env, c, S, text, tag) is not None,
+             [L.judge_conservation], LATTICE_RULE, twin=L.decomposed_twin)
     search_singles(ctx, shim, U, RD, ctx.budget(2, 1))
     search_strings(ctx, shim, U, RD, RC, ctx.rng("strings"), ctx.budget(100, 10 ** 6), ctx.budget(1, 2),
                    ctx.budget(40, 120))
